@@ -132,7 +132,9 @@ public:
     mutex.lock();
     bool ret = false;
 
-    if (x == *orderedSet.begin()) {
+    if (orderedSet.empty()) {
+      ret = false;
+    } else if (x == *orderedSet.begin()) {
       orderedSet.erase(orderedSet.begin());
       ret = true;
     } else {
@@ -240,6 +242,8 @@ public:
     bool ret = false;
 
     // TODO: write a better remove method
+    if (container.empty())
+      return false;
     if (x == top()) {
       pop();
       ret = true;
